@@ -3,3 +3,26 @@
 //! This module only exists with the `verif-hooks` feature, which is off by
 //! default. Nothing in here changes the behaviour of the crate; it only
 //! exposes crate-private information and notification points.
+
+use std::sync::RwLock;
+
+/// Callback type for [`set_const_eval_hook`]: `(begin, constant name)`.
+pub type ConstEvalHook = fn(bool, &str);
+
+static CONST_EVAL_HOOK: RwLock<Option<ConstEvalHook>> = RwLock::new(None);
+
+/// Install a callback that is told when compilation starts (`true`) and
+/// finishes (`false`) executing the initialiser of a script constant.
+///
+/// Compilation runs script code at that point; a harness needs to tell a
+/// crash or endless loop *of the script* from one of the compiler.
+pub fn set_const_eval_hook(hook: Option<ConstEvalHook>) {
+    *CONST_EVAL_HOOK.write().unwrap_or_else(|e| e.into_inner()) = hook;
+}
+
+pub(crate) fn const_eval(begin: bool, name: &str) {
+    let hook = *CONST_EVAL_HOOK.read().unwrap_or_else(|e| e.into_inner());
+    if let Some(hook) = hook {
+        hook(begin, name);
+    }
+}
